@@ -103,12 +103,12 @@ def make_fixed(nrows, maxcell):
         rows = [[stripped_cell(en, "c%d_%d" % (i, j), maxcell) for j in range(ncol)] for i in range(nr)]
         widths = [max([len(headers[j])] + [len(r[j]) for r in rows]) + 1 + en.choice("gap%d" % j, 2) for j in range(ncol)]
         lead = ["junk before the table"] if en.flag("lead") else []
-        foot = ["", "Total: 2"] if en.flag("foot") else []
+        foot = [[], ["", "Total: 2"], ["Total: 2", "   ", "Total of all: 3", "  "]][en.choice("foot", 3)]     # none / blank + footer / footer block with blanks-only lines inside and after it
         blank_between = en.flag("blank_row")
         lines = render_fixed(headers, rows, widths, lead, foot)
         if blank_between and nr > 1:
             lines.insert(len(lead) + 2, "")
-        case = lambda mv: {"kind": "fixed", "headers": headers, "rows": [[mv.str(c) for c in r] for r in rows], "widths": widths, "lead": bool(lead), "foot": bool(foot),  # noqa
+        case = lambda mv: {"kind": "fixed", "headers": headers, "rows": [[mv.str(c) for c in r] for r in rows], "widths": widths, "lead": bool(lead), "foot": foot,  # noqa
                            "blank": blank_between}
         en.note_sample(case)
         # an all-empty row renders as a blank line and is (documentedly) skipped: keep at least one non-empty cell per row
@@ -344,6 +344,11 @@ def make_ini():
         if with_default:
             lines += ["[DEFAULT]", "dflt%sD" % sep]
         lines += ["[main]", cat("e", c1, "y", sep, v1), "; a comment", "", "# another = comment"]
+        # (with the section written twice the second occurrence inherits the default again and wins over the first one's explicit
+        # value - unlike ConfigParser; noted in DESIGN.md as an observation, not generated here)
+        override = with_default and not same_section and en.flag("override_default")
+        if override:
+            lines.append("dflt%sX" % sep)          # the first section overrides the default; later sections still inherit it
         if dup_in_section:
             lines.append(cat("E", c2, "Y", sep, v2))
         third = en.flag("third_in_section")
@@ -373,10 +378,16 @@ def make_ini():
         items = ini.items("main")
         keys = list(items.keys())
         exp_keys = ["eky"] + (["plain"] if same_section else []) + (["dflt"] if with_default else [])
+        if override:
+            pass      # overriding does not add a key
         en.must_hold(len(keys) == len(exp_keys), "ini", case, detail="items('main') has %d keys, expected %d" % (len(keys), len(exp_keys)))
         for ek in exp_keys:
             f = f_or(*[eqf(gk, ek) for gk in keys])
             en.must_hold(f if isinstance(f, bool) else SBool(f), "ini", case, detail="items('main') lacks the key %s" % ek)
+        if with_default:
+            en.must_hold(ini.get("main", "dflt") == ("X" if override else "D"), "ini", case, detail="[main] dflt is %r" % (ini.get("main", "dflt"),))
+            if not same_section:
+                en.must_hold(ini.has_option("other", "dflt") and ini.get("other", "dflt") == "D", "ini", case, detail="[other] does not inherit the default although only [main] overrides it")
         if not same_section:
             hold_eq(en, ini.get("other", "eky"), v3, "ini", case, "get('other','eky')")
             en.must_hold(ini.get("other", "plain") == "P", "ini", case, detail="plain option")
@@ -416,7 +427,8 @@ def _native(case):
     kind = case["kind"]
     bad = []
     if kind == "fixed":
-        lines = render_fixed(case["headers"], case["rows"], case["widths"], ["junk before the table"] if case["lead"] else [], ["", "Total: 2"] if case["foot"] else [])
+        foot_ = case["foot"] if isinstance(case["foot"], list) else (["", "Total: 2"] if case["foot"] else [])
+        lines = render_fixed(case["headers"], case["rows"], case["widths"], ["junk before the table"] if case["lead"] else [], foot_)
         if case["blank"] and len(case["rows"]) > 1:
             lines.insert((1 if case["lead"] else 0) + 2, "")
         out = H.parse_fixed_table(lines, heading_ignore=[case["headers"][0]] if case["lead"] else [], trailing_ignore=["Total"] if case["foot"] else [])
